@@ -10,3 +10,5 @@ for s in "$@"; do
   out=$(VERIF_SEED=$s timeout 1500 ./check "$P" --tier quick --no-build 2>/dev/null); rc=$?
   echo "seed $s: exit $rc, $(echo "$out" | grep -c '^VIOLATION') VIOLATION line(s)"
 done
+# the generated Lean files must describe the clean tree again
+cd /repo && git checkout -- . 2>/dev/null; cd /verif && for g in gen_tables py2lean g4_tables; do PYTHONPATH=/repo /venv/bin/python harness/$g.py >/dev/null 2>&1; done
